@@ -513,6 +513,8 @@ error:
 	return -1;
 }
 
+static void remove_fetch_from_state(const struct element *e, const struct fetch *f);
+
 static int add_fetch_to_state_and_notify(const struct peer *p, struct element *e, struct fetch *f)
 {
 	if (!has_access(e->fetch_groups, f->peer->fetch_groups)) {
@@ -670,7 +672,15 @@ static int find_fetchers_for_element_in_peer(const struct peer *p,
 	list_for_each_safe (item, tmp, &p->fetch_list) {
 		struct fetch *f = list_entry(item, struct fetch, next_fetch);
 		if (unlikely(add_fetch_to_state_and_notify(p, e, f) != 0)) {
-			return -1;
+			if (p == e->peer) {
+				return -1;
+			}
+			/*
+			 * Another peer could not be told about the new element.
+			 * That is no reason to refuse the element to its owner;
+			 * the fetch just does not cover it.
+			 */
+			remove_fetch_from_state(e, f);
 		}
 	}
 	return 0;
